@@ -175,6 +175,19 @@ Theorem C20_text_read_chunks : forall a b s t, utf8_decode a = Some s -> utf8_de
 Proof. exact read_text_utf8_app. Qed.
 Print Assumptions C20_text_read_chunks.
 
+(* the same on the writing side: a text handed to file.write in several pieces arrives as the encoding of the whole text
+   (utf-16: ONE byte order mark, then the units of the pieces one after the other) *)
+Theorem C20_text_write_pieces_utf8 : forall s t, utf8_encode (s ++ t) = oapp (utf8_encode s) (utf8_encode t).
+Proof. exact utf8_encode_app. Qed.
+Print Assumptions C20_text_write_pieces_utf8.
+Theorem C20_text_write_pieces_latin1 : forall s t, latin1_encode (s ++ t) = oapp (latin1_encode s) (latin1_encode t).
+Proof. exact latin1_encode_app. Qed.
+Print Assumptions C20_text_write_pieces_latin1.
+Theorem C20_text_write_pieces_utf16 : forall s t a b, units_encode s = Some a -> units_encode t = Some b ->
+  utf16_encode (s ++ t) = Some (255 :: 254 :: bytes_le a ++ bytes_le b).
+Proof. exact utf16_encode_pieces. Qed.
+Print Assumptions C20_text_write_pieces_utf16.
+
 (* non-vacuity: a document with a non-ASCII letter, an astral character and a CRLF line end, through each codec *)
 Example C20_text_example :
   let s := [64; 97; 123; 233; 44; 13; 10; 128512; 125] in
